@@ -54,7 +54,7 @@ func (sc c12Scenario) build(caseID string) (*scenarioRun, *scenario) {
 	if sc.Rolling {
 		method = "RollingInPlace"
 	}
-	s := &scenario{ID: uid, GenerateSelector: sc.GenSel, Finalize: sc.Fin, Kinds: []kindCfg{{Kind: "Widget", Method: method}, {Kind: "ConfigMap", Method: "Recreate"}}}
+	s := &scenario{ID: uid, GenerateSelector: sc.GenSel, Finalize: sc.Fin, ResyncAfter: 45, Kinds: []kindCfg{{Kind: "Widget", Method: method}, {Kind: "ConfigMap", Method: "Recreate"}}}
 	s.Kids = []kidCfg{
 		{Kind: "Widget", Name: "upd-" + uid, Value: "v1"},
 		{Kind: "Widget", Name: "new-" + uid, Value: "v1"},
@@ -250,7 +250,7 @@ func c12Run(t *testing.T, sc c12Scenario, f *c12Fault, ref *c12Ref) *c12Ref {
 			return nil
 		}
 		if w.q.Len() == 0 {
-			if w.q.ReleaseDelayed() == 0 {
+			if w.q.ReleaseDue(10*time.Second) == 0 {
 				converged = true
 			}
 			continue
